@@ -42,6 +42,8 @@ def binary_pass(run, prop):
         raise common.BuildError('rrss binary does not build: ' + err[-2000:])
     binp = os.path.join(common.REPO, 'target', 'debug', 'rrss')
     big = [2000, 20000, 200000] if run.tier == 'quick' else [2000, 7000, 20000, 100000, 500000]
+    if prop == 'C01' and run.tier == 'quick':
+        big = [2000, 20000]           # (the C12 check runs the 200 000 sizes in its quick tier)
     texts_ = []
     for n in big:
         for unit in ['?', '!', ';', "'", ' ', '\t', '\n', '?! ', "' ", '; \n', '.', ',', '(c) ', '"s" ', 'x ', 'x\n', '5 ', 'é ']:
